@@ -19,7 +19,7 @@ FIN = "rtfs_fin"
 TMP = "rtfs_tmp"
 PROC = "loom.L/proc.77"
 BUFSZ = 4096          # glibc stdio buffer of a regular file here (st_blksize); validated by every kill run
-ERRNOS = {"ENOSPC": 28, "EIO": 5, "EACCES": 13}
+ERRNOS = {"ENOSPC": 28, "EIO": 5, "EACCES": 13, "ENOENT": 2}
 
 
 # ------------------------------------------------------------------ tools
